@@ -1097,6 +1097,9 @@ def model_env(model=None):
     return env
 
 
+PATH_START_HOOKS = []   # callables run before every path (symx.loader resets the library's module-level state here)
+
+
 def explore(fn, mode="bv", max_paths=20000, timeout_ms=20000, wall_s=None, pre=None, max_violations=None):
     """run fn() on every feasible path. fn's return value / exception is collected.
     Returns (ctx, results) where results is a list of (outcome_kind, value)."""
@@ -1112,8 +1115,8 @@ def explore(fn, mode="bv", max_paths=20000, timeout_ms=20000, wall_s=None, pre=N
             c.pcn = []
             c.dpos = []
             c.assumed = []
-            if c.stats.paths == 0 and not c.decisions:
-                pass
+            for _h in PATH_START_HOOKS:
+                _h()
             try:
                 res = ("ok", fn())
             except PathAbort:
